@@ -6,6 +6,9 @@ From Coq Require Import Permutation.
 From CG Require Import Base.Prelude Model.Ast Model.Parser Model.Check Model.Dfa Model.Driver Model.Tables
   Model.EmitBash Model.Compiler Spec.Printer.
 From CG Require Import Proofs.CheckSpans Proofs.PipelineSpans Proofs.CapstoneLayout.
+From CG Require Import Model.BashSem Model.Glob Spec.Lang Spec.ScriptRead Spec.Meaning Spec.Domain Spec.Invocations.
+From CG Require Import Proofs.TreeFacts Proofs.BashScript Proofs.BashCodec Proofs.EmbedEndToEnd Proofs.SubChecks
+  Proofs.BashMeaningSub Proofs.BashMeaningMix Proofs.StripFacts Proofs.GlobFacts Proofs.CapstoneMeaning.
 From CGgen Require Import Consts.
 
 (** ** C14 -- layout and statement order do not change the script
@@ -47,13 +50,124 @@ Print Assumptions C14_compile_bash_layout_script.
     ([order_rel]). *)
 Theorem C14_compile_bash_definition_order :
   forall o builtins t t' g g',
-    parse t = Ok g -> parse t' = Ok g' ->
+    Parser.parse t = Ok g -> Parser.parse t' = Ok g' ->
     Permutation g g' -> call_variants g = call_variants g' ->
     order_rel (compile_bash o builtins t) (compile_bash o builtins t').
 Proof. exact compile_bash_definition_order. Qed.
 Check C14_compile_bash_definition_order :
   forall o builtins t t' g g',
-    parse t = Ok g -> parse t' = Ok g' ->
+    Parser.parse t = Ok g -> Parser.parse t' = Ok g' ->
     Permutation g g' -> call_variants g = call_variants g' ->
     order_rel (compile_bash o builtins t) (compile_bash o builtins t').
 Print Assumptions C14_compile_bash_definition_order.
+
+(** ** C01 + C04 -- from the grammar text to what the emitted script computes
+
+    If [compile_bash] returns the script text [s], then there are the validated tree [v], the
+    automata [c] and the tables [a] of the pipeline such that
+    (A) the text [s] reads back ([ScriptRead.read_stmts]) to exactly the statement list of [a]: it
+        carries the main tables, start state and registration, the within-word rows / levels /
+        groups and every within-word automaton's own wrapper; those tables are exactly the labelled
+        transitions and per-level candidates of [c]; and [c] accepts exactly what the tree denotes;
+    (B) the functions of the script, interpreted on those tables ([BashSem.run_from Repaired]),
+        answer exactly what the specification [Meaning.complete] of the tree prescribes: status 1
+        when the words cannot be matched, else status 0 with exactly the required candidates.
+
+    Discharged from the pipeline: [alts_nonempty] (parser), [valid_literal_order] of the main and
+    of every within-word order and [valid_grouping] (validation of the oracles inside
+    [compile_bash]), well-formedness of the automata.  What remains:
+    - [lits_nodup o] (decidable, evaluated by the tie): no literal is listed twice.  It does NOT
+      follow from the pipeline: Rust lists a literal twice when it occurs both without a
+      description and with the empty description (witness [cmd (x a | y a "");]);
+    - (A): [name_ok] (the command name is a bash function name), [no_nl] of the signature,
+      [body_ok] (no command body has a lone closing brace line) -- C07 leaves;
+    - (B): [mix_tree] (leaves are literals, commands, undefined nonterminals and within-word
+      expressions made of literals: the proved layers of C01), [subs_deterministic c] (two
+      within-word automata with the same language reached from one state lead to the same state;
+      decidable sufficient form [subs_single]; not implied by the ambiguity check, cf. C02's known
+      class of within-word automata merged up to input order), the decided domain [C01_domain], and
+      the environment: case-sensitive completion, the same word breaks on both sides and
+      [breaks_ok], a plain printable typed word, command outputs that agree with the environment
+      of the specification, an unambiguous line. *)
+Theorem C01_compile_bash_meaning :
+  forall o builtins text s,
+    compile_bash o builtins text = Ok s ->
+    exists v c nd a,
+      compile (pick_table (o_pops o)) (o_fuel o) builtins text Bash = Ok (v, c)
+      /\ all_tables Bash c (o_main_lits o) (o_sub_lits o) = Ok (nd, a)
+      /\ (name_ok (v_command v) -> no_nl (o_sig o) = true ->
+          Forall (fun cmd => body_ok (cmd_body cmd)) (a_commands a) -> lits_nodup o = true ->
+          (exists sts,
+              script_stmts (v_command v) (d_start (c_main c)) nd a (o_groups o) = Ok sts
+              /\ read_stmts Bash (v_command v) s = sts
+              /\ carries_main (v_command v) (d_start (c_main c)) a sts
+              /\ carries_subs (v_command v) nd a (o_groups o) sts
+              /\ (n_subwords nd = true -> carries_each_sub (v_command v) a sts))
+          /\ tables_describe c (o_main_lits o) (o_sub_lits o) a
+          /\ (forall w, accepts_items c w <-> denotes (v_expr v) w))
+      /\ (forall (benv : BashSem.env) (en : Meaning.env) ws p,
+          mix_tree (v_expr v) = true -> lits_nodup o = true -> subs_deterministic c ->
+          C01_domain (v_expr v) = true ->
+          BashSem.e_ignore_case benv = false -> BashSem.e_wordbreaks benv = Meaning.e_wordbreaks en ->
+          breaks_ok (BashSem.e_wordbreaks benv) = true -> plain p = true -> printable_str p = true ->
+          (forall cm cid, Tables.index_of cm (a_commands a) = Some cid ->
+                          spec_candidates (cmd_output benv cid) = candidates en cm) ->
+          ambiguous_run en (start (v_expr v)) ws = false ->
+          match complete (v_expr v) en ws p with
+          | None => exists log, run_from Repaired (d_start (c_main c)) a benv ws p = Ok (mkresult 1 [] log)
+          | Some (req, al) =>
+              exists reply log, run_from Repaired (d_start (c_main c)) a benv ws p = Ok (mkresult 0 reply log)
+                                /\ (forall x, In x reply <-> In x req) /\ incl req al
+          end).
+Proof. exact compile_bash_meaning. Qed.
+Check C01_compile_bash_meaning :
+  forall o builtins text s,
+    compile_bash o builtins text = Ok s ->
+    exists v c nd a,
+      compile (pick_table (o_pops o)) (o_fuel o) builtins text Bash = Ok (v, c)
+      /\ all_tables Bash c (o_main_lits o) (o_sub_lits o) = Ok (nd, a)
+      /\ (name_ok (v_command v) -> no_nl (o_sig o) = true ->
+          Forall (fun cmd => body_ok (cmd_body cmd)) (a_commands a) -> lits_nodup o = true ->
+          (exists sts,
+              script_stmts (v_command v) (d_start (c_main c)) nd a (o_groups o) = Ok sts
+              /\ read_stmts Bash (v_command v) s = sts
+              /\ carries_main (v_command v) (d_start (c_main c)) a sts
+              /\ carries_subs (v_command v) nd a (o_groups o) sts
+              /\ (n_subwords nd = true -> carries_each_sub (v_command v) a sts))
+          /\ tables_describe c (o_main_lits o) (o_sub_lits o) a
+          /\ (forall w, accepts_items c w <-> denotes (v_expr v) w))
+      /\ (forall (benv : BashSem.env) (en : Meaning.env) ws p,
+          mix_tree (v_expr v) = true -> lits_nodup o = true -> subs_deterministic c ->
+          C01_domain (v_expr v) = true ->
+          BashSem.e_ignore_case benv = false -> BashSem.e_wordbreaks benv = Meaning.e_wordbreaks en ->
+          breaks_ok (BashSem.e_wordbreaks benv) = true -> plain p = true -> printable_str p = true ->
+          (forall cm cid, Tables.index_of cm (a_commands a) = Some cid ->
+                          spec_candidates (cmd_output benv cid) = candidates en cm) ->
+          ambiguous_run en (start (v_expr v)) ws = false ->
+          match complete (v_expr v) en ws p with
+          | None => exists log, run_from Repaired (d_start (c_main c)) a benv ws p = Ok (mkresult 1 [] log)
+          | Some (req, al) =>
+              exists reply log, run_from Repaired (d_start (c_main c)) a benv ws p = Ok (mkresult 0 reply log)
+                                /\ (forall x, In x reply <-> In x req) /\ incl req al
+          end).
+Print Assumptions C01_compile_bash_meaning.
+
+(** Non-vacuity: for the text below (a fallback, a within-word expression, a literal) [compile_bash]
+    returns a script, the tree is in the proved layers and in the decided domain, no literal is
+    listed twice, the decidable form of [subs_deterministic] holds. *)
+Definition exm_text : string := "cmd (add || --k=(x|yz)) end;".
+Definition exm_o : oracles :=
+  mkoracles [] 100 [("end", ""); ("add", "")] [(0, [("--k=", ""); ("yz", ""); ("x", "")])] [[0]] "sig".
+Example ex_C01_capstone_inhabited :
+  is_ok (compile_bash exm_o builtins exm_text) = true
+  /\ lits_nodup exm_o = true
+  /\ match compile (pick_table (o_pops exm_o)) (o_fuel exm_o) builtins exm_text Bash with
+     | Ok (v, c) => mix_tree (v_expr v) = true /\ C01_domain (v_expr v) = true /\ subs_single c = true
+                    /\ name_ok (v_command v)
+     | _ => False
+     end.
+Proof.
+  split; [vm_compute; reflexivity|]. split; [vm_compute; reflexivity|].
+  vm_compute. repeat split; try reflexivity; discriminate.
+Qed.
+Print Assumptions ex_C01_capstone_inhabited.
